@@ -42,6 +42,14 @@ Theorem C03_form_keeps_kind :
     exec_form cfg_now m opt f (VInt k v) = Ok r -> exists z, r = VInt k z /\ in_range k z.
 Proof. exact form_keeps_kind. Qed.
 
+(* the fused Increment instruction is exactly Load/Push/Add/Store: same value, same kind, same error,
+   for ALL variable values (integer, bool, string), all steps (constant or not) and all modes - the
+   code as of tucats/ego 8521b872 (before it the sum bypassed Store's conformance check) *)
+Theorem C03_increment_is_add_store :
+  forall m v step,
+    increment cfg_now m v step = bind (binop m Add (v, false) step) (fun r => store m v (r, false)).
+Proof. intros. apply increment_is_add_store; reflexivity. Qed.
+
 (* unary minus works on every integer kind and keeps kind and constness; the result wraps like Go *)
 Theorem C03_negate_total :
   forall k c v, negate (VInt k v, c) = Ok (VInt k (wrap k (- v)), c).
@@ -95,6 +103,12 @@ Example C03_nonvacuous_forms :
   exec_form cfg_now Dynamic false (SubAssign 300) (VInt Byte 3) = Ok (VInt Byte 215) /\
   exec_form cfg_now Strict true (AssignAdd 300) (VInt Byte 3) = Err ELossy.
 Proof. vm_compute. repeat split; congruence. Qed.
+Example C03_nonvacuous_increment :
+  increment cfg_now Relaxed (VInt I8 100) (VInt I64 100, false) = Ok (VInt I8 (-56)) /\
+  increment cfg_now Dynamic (VInt I8 100) (VInt I64 100, false) = Ok (VInt I64 200) /\
+  increment cfg_now Strict (VBool false) (VInt Byte 1, true) = Err EVarType /\
+  increment cfg_old Relaxed (VInt I16 100) (VInt I64 100, false) = Ok (VInt I64 200).
+Proof. vm_compute. repeat split; reflexivity. Qed.
 Example C03_nonvacuous_negate :
   negate (VInt I8 (-128), true) = Ok (VInt I8 (-128), true) /\ negate (VInt U16 5, false) = Ok (VInt U16 65531, false).
 Proof. vm_compute. split; reflexivity. Qed.
